@@ -371,6 +371,8 @@ var c14Templates = []string{
 	"a\\\n" + hA,                           // 9: hard line break (backslash), next line
 	"- a  \n  " + hA + "\n",                 // 10: hard line break inside a list item
 	"`a\n" + hA + "`\n",                     // 11: line ending inside a code span
+	"```" + hA + hA,                         // 12: fence opener with a two-byte info string at end of input
+	"a\n\n> ```" + hA + hA,                  // 13: the same inside a block quote
 }
 
 var c14Pads = []string{"\n", " \n", "\r\n", "\t\n\n", "\r"}
@@ -476,6 +478,31 @@ func H_C09_quote(kind, a int) {
 	want := append([]byte("<blockquote>\n"), hd...)
 	want = append(want, "\n</blockquote>"...)
 	check(vsame(normHTML(hq), normHTML(want)), "C09.quote.html")
+	vdigest(hd)
+}
+
+// H_C09_quote_bare: the marker is '>' without the optional space. A bare '>' takes
+// one leading space of the line for itself, so D is restricted to documents in which
+// no line starts with a space (then the bare marker is exactly the block quote marker
+// of the statement).
+func H_C09_quote_bare(kind, a int) {
+	d := treeInput(kind, a)
+	atStart := true
+	for _, c := range d {
+		assume(c != '\t')
+		if atStart {
+			assume(c != ' ')
+		}
+		atStart = c == '\n' || c == '\r'
+	}
+	hd, bd := renderPlain(cloneBytes(d), true)
+	assume(len(bd) > 0)
+	q := prefixLines(d, ">", ">")
+	hq, bq := renderPlain(q, true)
+	check(len(bq) == 1 && bq[0].Kind() == BlockQuoteKind, "C09.quote-bare.single-root")
+	want := append([]byte("<blockquote>\n"), hd...)
+	want = append(want, "\n</blockquote>"...)
+	check(vsame(normHTML(hq), normHTML(want)), "C09.quote-bare.html")
 	vdigest(hd)
 }
 
